@@ -51,14 +51,30 @@ func runC20(ctx *Ctx) {
 	}
 	type group struct{ idx []int }
 	var groups []group
+	// families of operations that share code (and therefore any state a change may add to it); the two codecs are
+	// used by almost everything. Quick: every operation against itself (two UEs in the same code is where shared
+	// state shows first), every pair inside a family and every pair involving one of the codecs; thorough: all pairs.
+	family := map[string]string{"NEA1": "snow", "NIA1": "snow", "NEA1(300 octets)": "snow", "NIA1(300 octets)": "snow", "NASEncode(NIA1,NEA1)": "snow", "NASDecode(NIA1,NEA1)": "snow",
+		"NEA2": "aes", "NIA2": "aes", "NEA2(300 octets)": "aes", "NASEncode(NIA2,NEA2)": "aes", "NASDecode(NIA2,NEA0)": "aes",
+		"DeriveRESstarAndSetKey": "keys", "DeriveRESstarAndSetKey(OP only)": "keys", "Milenage+KDF": "keys",
+		"SUCI+CreateUE+capability": "ids", "identifier conversions": "ids", "NAS constructors": "nas", "NAS-plain-codec": "codec", "NGAP-encode-decode": "codec", "NGAP builders": "ngap"}
 	for a := range ops {
 		for b := a; b < len(ops); b++ {
-			groups = append(groups, group{[]int{a, b}})
+			fa, fb := family[ops[a].name], family[ops[b].name]
+			if ctx.Thorough || a == b || fa == fb || fa == "codec" || fb == "codec" {
+				groups = append(groups, group{[]int{a, b}})
+			}
 		}
 	}
 	if ctx.Thorough {
-		for _, t := range [][]int{{0, 0, 0}, {0, 1, 6}, {1, 1, 8}, {0, 6, 8}, {6, 8, 10}} {
+		for _, t := range [][]int{{0, 0, 0}, {0, 1, 6}, {1, 1, 8}, {0, 6, 8}, {6, 8, 10}, {4, 4, 4}, {5, 5, 5}, {14, 14, 14}, {11, 11, 12}} {
 			groups = append(groups, group{t})
+		}
+	}
+	npairs := 0
+	for _, g := range groups {
+		if len(g.idx) == 2 {
+			npairs++
 		}
 	}
 	if !ctx.IsChild() {
@@ -79,9 +95,9 @@ func runC20(ctx *Ctx) {
 			}
 		}
 		r.Sample("threads: UE0 NEA1(5 octets) || UE1 NIA1(9 octets): every interleaving at the 90+ yield points with <=2 preemptions; outputs must equal the sequential ones")
-		r.Rule = fmt.Sprintf("cooperative scheduler (one goroutine runs at a time; scheduling points = every statement that reads or writes a package-level variable mutated at run time anywhere in the instrumented packages [found by AST analysis of the current tree, listed under mutated_package_level_variables; the first %d dynamic instances of each such statement per thread], scheduler-aware mutex operations, thread start/end): for all %d unordered pairs of 11 operation kinds (each thread on its own UE context, keys and messages)%s every schedule with <=%d preemptions (one less for groups containing a composite NASEncode/NASDecode operation); "+
+		r.Rule = fmt.Sprintf("cooperative scheduler (one goroutine runs at a time; scheduling points = every statement that reads or writes a package-level variable mutated at run time anywhere in the instrumented packages [found by AST analysis of the current tree, listed under mutated_package_level_variables; the first %d dynamic instances of each such statement per thread], scheduler-aware mutex operations, thread start/end): for %d unordered pairs of %d operation kinds (each thread on its own UE context, keys and messages; quick: every operation against itself, every pair inside a family of operations sharing code, every pair involving a codec; thorough: all pairs)%s every schedule with <=%d preemptions (one less for groups containing a composite NASEncode/NASDecode operation and, in quick, for pairs across families); "+
 			"oracle: every thread's outputs == the outputs of the same operation run alone (and == the independent references for NEA1/NIA1); deadlock = violation; plus a separate free-running pass of the same bodies built with -race (G in {2,8,64} goroutines, 200 rounds): any data race report is a violation; distinct = (group, schedule); non-trivial = schedules with at least one preemption",
-			vsched.MaxPerSite, len(ops)*(len(ops)+1)/2, map[bool]string{true: " and 5 triples", false: ""}[ctx.Thorough], bound)
+			vsched.MaxPerSite, npairs, len(ops), map[bool]string{true: " and 9 triples", false: ""}[ctx.Thorough], bound)
 		r.Assume("only sequentially consistent interleavings at the inserted yield points are explored; unsynchronised accesses elsewhere are the business of the free-running -race pass (a dynamic detector, not an enumeration)",
 			"switches at a thread's end count as deviations in the explorer (exact for 2 threads, a slightly smaller space than the true preemption bound for 3)")
 		return
@@ -98,6 +114,9 @@ func runC20(ctx *Ctx) {
 		gname := strings.Join(names, " || ")
 		deadline := time.Now().Add(100 * time.Second)
 		gb := bound
+		if !ctx.Thorough && len(g.idx) == 2 && g.idx[0] != g.idx[1] && family[ops[g.idx[0]].name] != family[ops[g.idx[1]].name] {
+			gb = bound - 1 // quick: a codec against an operation of another family with one preemption less
+		}
 		for _, i := range g.idx {
 			if i >= 6 && i <= 9 { // composite protect/unprotect operations have 3-4x the scheduling points of a primitive
 				gb = bound - 1
